@@ -352,6 +352,28 @@ open Mochi.InflOrder in
 example : (getAll inflWrapStore false).map (·.id) = [2, 65535, 1] ∧
     (nextImmediate inflWrapStore).map (·.id) = some 65535 := by decide
 
+open Mochi.InflOrder in
+/-- the other side of the boundary, and the link to M3: when all collected records were created in the same second,
+    EVERY permutation of them is sorted by creation time — the program leaves their order to Go's map iteration and
+    an unstable sort, which is why M3 resolves the resend and the deferred release by a free seed there (F12) -/
+theorem C12_equal_seconds_any_order (s : Store) (imm : Bool) (l : List Rec) (hp : l.Perm (candidates s imm))
+    (heq : ∀ a ∈ candidates s imm, ∀ b ∈ candidates s imm, a.created = b.created) :
+    l.Pairwise fun a b => a.created ≤ b.created := by
+  apply List.pairwise_of_forall_mem_list
+  intro a ha b hb
+  have := heq a (hp.mem_iff.mp ha) b (hp.mem_iff.mp hb)
+  omega
+
+open Mochi.InflOrder in
+/-- the store behaves like the Go map it models, for every sequence of `Set` / `Delete`: at most one record per packet
+    id, `Set` replaces exactly the record of its id, `Delete` removes exactly that id -/
+theorem C12_inflight_store_is_a_map (s : Store) (h : UniqueIds s) (r : Rec) (id : Nat) :
+    UniqueIds (set s r).1 ∧ UniqueIds (del s id).1 ∧
+    (∀ x, x ∈ (set s r).1 ↔ x = r ∨ (x ∈ s ∧ x.id ≠ r.id)) ∧ (∀ x, x ∈ (del s id).1 ↔ x ∈ s ∧ x.id ≠ id) :=
+  ⟨set_unique s r h, del_unique s id h, mem_set s r, mem_del s id⟩
+
+#print axioms C12_inflight_store_is_a_map
+#print axioms C12_equal_seconds_any_order
 #print axioms C12_inflight_older_first
 #print axioms C12_inflight_getAll_sorted_perm
 #print axioms C12_next_immediate_is_oldest
